@@ -182,7 +182,13 @@ def st_mini(files, max_extra=4):
         # (20, 20A, 20B as in tRNA numbering), numbers descend in file order, or the chains appear in reverse
         # alphabetical order - shapes the corpus hardly contains
         relabel = draw(st.sampled_from([None, None, None, "icode-runs-2", "icode-runs-3", "descending", "chains-reversed"]))
-        return {"kind": "mini", "file": fn, "residues": idx, "moves": moves, "drop": drops, "relabel": relabel}
+        # residues reduced to a fragment, as in base-only ligands, coarse models or truncated deposits
+        strip = []
+        for slot in range(len(idx)):
+            how = draw(st.sampled_from([None] * 9 + ["base+C1'", "no-phosphate", "base+sugar-ring"]))
+            if how:
+                strip.append([slot, how])
+        return {"kind": "mini", "file": fn, "residues": idx, "moves": moves, "drop": drops, "relabel": relabel, "strip": strip}
 
     return build()
 
@@ -208,10 +214,24 @@ def build_mini(case):
     for slot, name in case.get("drop", []):
         dropped.setdefault(idx[slot % len(idx)], set()).add(name)
 
-    def ak(ri, k):
-        return s3.residues[ri].atoms[k].name not in dropped.get(ri, ())
+    PHOSPHATE = {"P", "OP1", "OP2", "OP3", "O1P", "O2P", "O3P"}
+    SUGAR = {"C1'", "C2'", "C3'", "C4'", "C5'", "O2'", "O3'", "O4'", "O5'"}
+    stripped = {idx[slot % len(idx)]: how for slot, how in case.get("strip", [])}
 
-    return rebuild(s3, keep=set(idx), point_fn=pf, atom_keep=ak if dropped else None, ident_fn=mini_ident_fn(case.get("relabel"), idx))
+    def ak(ri, k):
+        name = s3.residues[ri].atoms[k].name
+        if name in dropped.get(ri, ()):
+            return False
+        how = stripped.get(ri)
+        if how == "base+C1'":
+            return name == "C1'" or (name not in PHOSPHATE and name not in SUGAR and not name.startswith("H"))
+        if how == "no-phosphate":
+            return name not in PHOSPHATE
+        if how == "base+sugar-ring":
+            return name not in PHOSPHATE and name not in ("C5'", "O5'", "O3'", "O2'")
+        return True
+
+    return rebuild(s3, keep=set(idx), point_fn=pf, atom_keep=ak if (dropped or stripped) else None, ident_fn=mini_ident_fn(case.get("relabel"), idx))
 
 
 def mini_ident_fn(relabel, idx):
